@@ -264,3 +264,26 @@ def h_transform(E, shape):
     it = T.create_transformed_iterate(x0a, arr(yu) if m else None)
     E.prove(common.in_box(items(it.x), items(tp.var_lb), items(tp.var_ub)), "C05.start_iterate_in_internal_box")
     E.prove(common.eq_all(items(x0a), x0), "C11.start_point_unchanged")
+    # ... and it is the scaled start point followed by the projection of c(x0) onto the row bounds,
+    # whatever the dtype of the caller's start point (float array, integer array)
+    for kind in ("float", "int"):
+        if kind == "int":
+            xs0 = [E.int(f"x0i_{j}", -4, 4) for j in range(n)]
+            for j in range(n):
+                E.assume(land(spec["xl"][j] <= xs0[j], xs0[j] <= spec["xu"][j]))
+            xs0a = np.array(xs0, dtype=int)
+        else:
+            xs0, xs0a = x0, arr(x0)
+        its = T.create_transformed_iterate(xs0a, arr(yu) if m else None)
+        got = items(its.x)
+        ok0 = len(got) == N
+        if ok0:
+            for j in range(n):
+                ok0 = land(ok0, got[j] == ld(xs0[j] * 1.0, vw[j]))
+            for q, i in enumerate(sp):
+                ci = ld(E.uf(f"c{i}", *xs0), cw[i])
+                lo = ld(spec["cl"][i], cw[i]) if spec["cl"][i] != -INF else -INF
+                hi = ld(spec["cu"][i], cw[i]) if spec["cu"][i] != INF else INF
+                ok0 = land(ok0, got[n + q] == smin(smax(ci, lo), hi))
+        E.prove(ok0, "C04.start_iterate_is_scaled_point_plus_projected_slack", info=dict(x0_dtype=kind))
+
